@@ -3,6 +3,7 @@
 package main
 
 import (
+	"bufio"
 	"fmt"
 	"os"
 	"os/exec"
@@ -31,6 +32,35 @@ func main() {
 		cmd := exec.Command(b.Bin)
 		cmd.Stdin, cmd.Stdout, cmd.Stderr = os.Stdin, os.Stdout, os.Stderr
 		cmd.Run()
+	case "modelline":
+		// debugging aid: scenario+schedule lines on stdin -> request lines for the Lean driver
+		b, err := buildShim()
+		if err != nil {
+			fmt.Fprintln(os.Stderr, err)
+			os.Exit(2)
+		}
+		defer b.Cleanup()
+		p, err := startShim(b.Bin)
+		if err != nil {
+			fmt.Fprintln(os.Stderr, err)
+			os.Exit(2)
+		}
+		defer p.close()
+		in := bufio.NewScanner(os.Stdin)
+		for in.Scan() {
+			sc, sched, ok := parseScenario(in.Text())
+			if !ok {
+				fmt.Println("bad-scenario")
+				continue
+			}
+			tr, _, err := p.request(sc.text + " " + sched)
+			if err != nil || len(tr) != 1 {
+				fmt.Println("error", err)
+				continue
+			}
+			a := analyse(sc, tr[0])
+			fmt.Println(a.modelLine)
+		}
 	default:
 		fmt.Fprintln(os.Stderr, "usage: par factgen|corr|trace [flags]")
 		os.Exit(2)
